@@ -1069,7 +1069,7 @@ theorem parse_item (X : Ora) (it : Item) (h : wfItem X it = true) (hb : nonBlank
     parse (st0 false) (itemToks it ++ rest) = parse (st0 false) rest := by
   cases it with
   | blank => simp [nonBlank] at hb
-  | pass => simp [itemToks, parse, pstep, st0, kwPass]
+  | pass => simp [itemToks, parse, pstep, st0, kwPass, lineEndStep]
   | doc d => simp [itemToks, parse, pstep, st0, operandStep, afterStep, startsPositional]
   | ann n e =>
     simp only [wfItem, Bool.and_eq_true, targetName, Bool.not_eq_true'] at h
@@ -1119,7 +1119,7 @@ theorem parse_class (X : Ora) (opened : Bool) (name : List Char) (items : List I
     rw [parse_dedent, parse_header, e]
 
 theorem parse_import (rest : List Tok) : parse (st0 false) (importToks ++ rest) = parse (st0 false) rest := by
-  simp [importToks, parse, pstep, st0, kwFrom, kwImport, isOp]
+  simp [importToks, parse, pstep, st0, kwFrom, kwImport, isOp, from1Step, from2Step, from3Step, lineEndStep]
 
 /-! ### modules -/
 
